@@ -17,7 +17,7 @@ variable {α β : Type} [DecidableEq α] [DecidableEq β]
 def relabelRec (f : α → β) (r : ArmSt α) : ArmSt β :=
   { sum := r.sum, cnt := r.cnt, mean := r.mean, exp := r.exp, succ := r.succ, fail := r.fail, trained := r.trained,
     warm := r.warm, warmBy := r.warmBy.map f, inited := r.inited, A := r.A, Xty := r.Xty, Ainv := r.Ainv,
-    beta := r.beta, rngPriv := r.rngPriv }
+    beta := r.beta, rngPriv := r.rngPriv, mu := r.mu, sc := r.sc }
 
 def relabelDict (f : α → β) (d : Dict α (ArmSt α)) : Dict β (ArmSt β) := d.map fun p => (f p.1, relabelRec f p.2)
 
